@@ -98,9 +98,21 @@ theorem cleanup_loop_spec : type_of% @cleanupAll_spec := @cleanupAll_spec
 
 /-! ## 3. `setRelationsBatch` -/
 
-/-- without observers and callback, `setRelationsBatch` is `Lock`, the table selection, the loop
-    of `prepareRelationsMove`, `moveEntities` for every collected move, `registerTargets`,
-    `Unlock` -/
+/-- without observers and callback, `setRelationsBatch` is — in the order in which it runs since
+    the repair of defect D27 — the table selection, the loop of `prepareRelationsMove`, `Lock`,
+    `moveEntities` for every collected move, `registerTargets`, `Unlock` -/
+theorem setRelationsBatch_normal_form_planFirst : type_of% @setRelationsBatch_eq_planFirst :=
+  @setRelationsBatch_eq_planFirst
+
+/-- a panic of the lookup loop is the batch's panic, with the same state: the lock has not been
+    taken (see Ark/Props/C07Batch.lean for what that state is) -/
+theorem setRelationsBatch_lookup_panic : type_of% @setRelationsBatch_prepLoop_panic :=
+  @setRelationsBatch_prepLoop_panic
+
+/-- … and hence also `Lock`, the table selection, the loop of `prepareRelationsMove`,
+    `moveEntities` for every collected move, `registerTargets`, `Unlock` (the order before the
+    repair) whenever the lookup loop succeeds: selection and lookup loop neither read nor write
+    the lock -/
 theorem setRelationsBatch_normal_form : type_of% @setRelationsBatch_eq := @setRelationsBatch_eq
 
 /-- **a table whose targets the assignment does not change is skipped** (`prepareRelationsMove`
